@@ -1380,6 +1380,16 @@ func (client *client) pollInflights() (cont bool, err error) {
 		id := v.MessageWithID.ID()
 		switch m := v.MessageWithID.(type) {
 		case *queue.Publish:
+			if !client.checkMaxPacketSize(m.Message) {
+				// larger than the Maximum Packet Size declared on this connection (the
+				// session may have been resumed with a smaller one): discard it whole and
+				// behave as if it had been sent [MQTT-3.1.2-25]
+				if err := client.queueStore.Remove(id); err != nil {
+					return false, err
+				}
+				client.queueNotifier.notifyDropped(m.Message, queue.ErrDropExceedsMaxPacketSize)
+				continue
+			}
 			m.Dup = true
 			// https://docs.oasis-open.org/mqtt/mqtt/v5.0/os/mqtt-v5.0-os.html#_Subscription_Options
 			// The Server need not use the same set of Subscription Identifiers in the retransmitted PUBLISH packet.
